@@ -3,7 +3,7 @@ CONSTANTS
   Intents <- MC_Intents
   BehOf <- MC_BehOf
   BadInputs = {"malformed", "control", "import_malformed"}
-  DupMode = "code"
+  DupMode = "reenqueue"
   LimitMode = "code"
   RunnableMode = "code"
   None = None
@@ -18,7 +18,7 @@ CONSTANTS
   Mode = "graph"
   MaxRuns = 2
   MaxCalls = 0
-  Export = TRUE
+  Export = FALSE
 VIEW MC_View
 INVARIANTS TypeOK TicksAdvanceOnlyByCycles HistoryAppendOnly AtMostOnce LedgerIsLog DuplicateChangesNothing AcceptedIsNew RunCommitsPendingSet RunIdsFresh StartCompletionConsistent StatusFresh RefusedChangesNothing FailedRunCommitsNothing DormantNeverCommitted ReadChangesNothing ResponseCarriesStatus
 PROPERTIES Laws
